@@ -345,8 +345,8 @@ func classifyOpt(c OptCase) (bool, []string) {
 
 var optSpec = pbt.Spec[OptCase]{
 	Property: "C10", Name: "optimise",
-	Rule: "typed expression trees over all helpers of the standard table (constant / dynamic / mixed arguments, concatenated arguments, quoted and bare sub-expressions, formulas, escaped literal text, random blanks) x 1..8 contexts incl. the all-empty one x colour/humanize/unicode switches; oracle: NewStdKeyBuilderEx(true) and (false) agree on compiling and on BuildKey for every context in order, and the optimised value equals the optimised value of the tree with its constants replaced by named keys carrying the same values. Non-trivial: the tree holds a helper call without any reference to the match (foldable) AND something dynamic, compiles, >=2 contexts; distinct by case JSON",
-	Budget: pbt.Budget{Quick: 130000, Thorough: 4000000},
+	Rule:   "typed expression trees over all helpers of the standard table (constant / dynamic / mixed arguments, concatenated arguments, quoted and bare sub-expressions, formulas, escaped literal text, random blanks) x 1..8 contexts incl. the all-empty one x colour/humanize/unicode switches; oracle: NewStdKeyBuilderEx(true) and (false) agree on compiling and on BuildKey for every context in order, and the optimised value equals the optimised value of the tree with its constants replaced by named keys carrying the same values. Non-trivial: the tree holds a helper call without any reference to the match (foldable) AND something dynamic, compiles, >=2 contexts; distinct by case JSON",
+	Budget: pbt.Budget{Quick: 130000, Thorough: 400000},
 	Gen:    genOpt, Check: checkOpt, Classify: classifyOpt,
 }
 
@@ -643,7 +643,9 @@ func checkLive(c LiveCase) error {
 		return fmt.Errorf("funcs file did not load: %v\n%s", lerr, q(string(c.Funcs)))
 	}
 	funclib.AddFunctions(funcs)
-	type pair struct{ opt, plain *expressions.CompiledKeyBuilder }
+	type pair struct {
+		opt, plain *expressions.CompiledKeyBuilder
+	}
 	var ks []pair
 	for _, tpl := range c.Templates {
 		o, oerr := funclib.NewKeyBuilderEx(true).Compile(string(tpl))
@@ -688,7 +690,7 @@ func checkLive(c LiveCase) error {
 
 var liveSpec = pbt.Spec[LiveCase]{
 	Property: "C10", Name: "live",
-	Rule: "6..14 templates per case around {time live} / {time delta} (keyword spelled in any case, quoted, or computed from constants; extra format/tz arguments; bare, inside literal text, as argument of sumi/timeformat/tab/coalesce/if/format/@join, inside an @map sub-expression, inside user functions of a funcs file incl. one calling another); oracle: evaluated in two different wall-clock seconds the optimised builder's text changes whenever the non-optimised builder's does (purely behavioural; whether the context is touched is only labelled). Non-trivial: every case (>=6 moving templates)",
+	Rule:   "6..14 templates per case around {time live} / {time delta} (keyword spelled in any case, quoted, or computed from constants; extra format/tz arguments; bare, inside literal text, as argument of sumi/timeformat/tab/coalesce/if/format/@join, inside an @map sub-expression, inside user functions of a funcs file incl. one calling another); oracle: evaluated in two different wall-clock seconds the optimised builder's text changes whenever the non-optimised builder's does (purely behavioural; whether the context is touched is only labelled). Non-trivial: every case (>=6 moving templates)",
 	Budget: pbt.Budget{Quick: 32, Thorough: 480},
 	Gen:    genLive, Check: checkLive,
 	Classify: func(c LiveCase) (bool, []string) {
@@ -701,11 +703,11 @@ func TestLive(t *testing.T) { pbt.Run(t, liveSpec) }
 // ---------------------------------------------------------------- (b) funcs files
 
 type FuncsCase struct {
-	File   pbt.S   // the funcs file in generated layout
-	Flat   pbt.S   // the same definitions, one per line, no comments, no continuations
+	File   pbt.S    // the funcs file in generated layout
+	Flat   pbt.S    // the same definitions, one per line, no comments, no continuations
 	Names  []string // definition names in file order
-	Call   pbt.S   // template calling the user functions
-	Inline pbt.S   // the same tree with every call replaced by the substituted body
+	Call   pbt.S    // template calling the user functions
+	Inline pbt.S    // the same tree with every call replaced by the substituted body
 	Ctxs   []Ctx
 	Sw     Switches
 	Cli    bool // also through the rare binary (first context)
@@ -752,9 +754,41 @@ func hasUserCall(pieces []*Node, dm map[string]*Def) (any, nested, inLam bool) {
 	return
 }
 
-func buildFuncs(g *gctx, maxCtx int, cliPct int) FuncsCase {
+// Known finding (proposed): a funcs-file function is compiled once, so the
+// format-remembering time parser inside its body ({time x} without a format)
+// keeps ONE remembered format for all call sites, where the body written
+// inline has one per occurrence: {ts {0}} {ts {1}} with two date formats gives
+// <PARSE-ERROR> for the second, {time {0}} {time {1}} parses both. While the
+// entry is listed the class is left out by construction (and counted); when
+// it is not listed the class is generated like any other.
+const knownSharedTimeCache = "user-function-shares-time-format-cache"
+
+func sharedTimeCacheWitness() error {
+	reset(Switches{Humanize: true, Unicode: true})
+	defer reset(Switches{})
+	funcs, err := funcfile.LoadDefinitions(funclib.NewKeyBuilder(), strings.NewReader("ts {time {0}}\n"), "witness.funcs")
+	if err != nil {
+		return nil
+	}
+	funclib.AddFunctions(funcs)
+	call, cerr := funclib.NewKeyBuilder().Compile("{ts {0}} {ts {1}}")
+	inl, ierr := funclib.NewKeyBuilder().Compile("{time {0}} {time {1}}")
+	if cerr != nil || ierr != nil {
+		return nil
+	}
+	ctx := &expressions.KeyBuilderContextArray{Elements: []string{"2020-01-05 10:11:12", "14/Apr/2016:19:12:25 +0200"}}
+	if a, b := call.BuildKey(ctx), inl.BuildKey(ctx); a != b {
+		return fmt.Errorf("{ts {0}} {ts {1}} = %q, inline {time {0}} {time {1}} = %q", a, b)
+	}
+	return nil
+}
+
+// buildFuncs: statelessOnly keeps the format-remembering time parser away
+// from dynamic input in bodies and call sites (always for the concurrent
+// sub-property: which date is seen first is then a matter of scheduling).
+func buildFuncs(g *gctx, maxCtx int, cliPct int, statelessOnly bool) FuncsCase {
 	c := FuncsCase{Obs: pbt.NewObs()}
-	g.noCacheDyn = true
+	g.noCacheDyn = statelessOnly
 	// bodies: well-formed constants and kind-correct nesting, so that the file loads
 	g.good, g.typedOnly = true, true
 	defs := g.definitions(5)
@@ -824,7 +858,7 @@ func genFuncs(t *rapid.T) FuncsCase {
 	if os.Getenv("VERIF_RARE_BIN") == "" {
 		pct = 0
 	}
-	return buildFuncs(g, 6, pct)
+	return buildFuncs(g, 6, pct, pbt.IsKnown("C10", knownSharedTimeCache))
 }
 
 // loadBoth loads the generated layout and the flat form into fresh compilers
@@ -1049,12 +1083,17 @@ func classifyFuncs(c FuncsCase) (bool, []string) {
 
 var funcsSpec = pbt.Spec[FuncsCase]{
 	Property: "C10", Name: "funcs",
-	Rule: "1..5 generated definitions (typed bodies over all helpers; parameters {0}..{2}, named keys, literal text, calls of earlier definitions), written in a random layout (# comment lines and trailing comments, blank lines, bodies broken with trailing backslashes at argument boundaries and after the name, blank/comment lines between continuation lines, with/without final newline) x a template calling them with k-1..k+1 arguments (constants, groups, keys, nested helper and user calls, inside sub-expressions) x 1..6 contexts; oracle: the layout defines what the one-line-per-definition file defines; the call (layout file and flat file, optimised and not, registered through funclib like main.go does) equals the body substituted on the tree and printed inline, for every context; 2% of the cases also through `rare --funcs f expression [--no-optimize] --data .. --key ..`. Non-trivial: some body uses an argument >=2 times or calls an earlier definition, the file has >=1 continuation, everything compiles; distinct by case JSON",
-	Budget: pbt.Budget{Quick: 60000, Thorough: 1500000},
+	Rule:   "1..5 generated definitions (typed bodies over all helpers; parameters {0}..{2}, named keys, literal text, calls of earlier definitions), written in a random layout (# comment lines and trailing comments, blank lines, bodies broken with trailing backslashes at argument boundaries and after the name, blank/comment lines between continuation lines, with/without final newline) x a template calling them with k-1..k+1 arguments (constants, groups, keys, nested helper and user calls, inside sub-expressions) x 1..6 contexts; oracle: the layout defines what the one-line-per-definition file defines; the call (layout file and flat file, optimised and not, registered through funclib like main.go does) equals the body substituted on the tree and printed inline, for every context; 2% of the cases also through `rare --funcs f expression [--no-optimize] --data .. --key ..`. Non-trivial: some body uses an argument >=2 times or calls an earlier definition, the file has >=1 continuation, everything compiles; distinct by case JSON",
+	Budget: pbt.Budget{Quick: 60000, Thorough: 240000},
 	Gen:    genFuncs, Check: checkFuncs, Classify: classifyFuncs,
 }
 
-func TestFuncs(t *testing.T) { pbt.Run(t, funcsSpec) }
+func TestFuncs(t *testing.T) {
+	if os.Getenv("VERIF_REPLAY") == "" {
+		pbt.ReportKnown("C10", knownSharedTimeCache, sharedTimeCacheWitness)
+	}
+	pbt.Run(t, funcsSpec)
+}
 
 // ---------------------------------------------------------------- (c) concurrent evaluation
 
@@ -1122,7 +1161,7 @@ func genWorkers(g *gctx) (w, reps int) {
 	if g.chance(40, "manyWorkers") {
 		w = g.n(4, 8, "workersMany")
 	}
-	reps = g.n(5, 40, "reps")
+	reps = g.n(4, 24, "reps")
 	return
 }
 
@@ -1171,8 +1210,8 @@ func classifyConc(w int, ctxs []Ctx, inner bool, labels []string) (bool, []strin
 
 var concOptSpec = pbt.Spec[ConcOptCase]{
 	Property: "C10", Name: "concurrent-optimise",
-	Rule: "cases of `optimise` (without the format-remembering time parser on dynamic input) whose optimised, non-optimised and hoisted compiled expressions are shared by W=1..8 goroutines that start together and evaluate every context 5..40 times from different offsets (own context objects per goroutine); oracle: every result equals the sequential non-optimised one. Non-trivial: non-trivial as in `optimise`, W>=2, >=2 contexts. Built with -race in the thorough tier",
-	Budget: pbt.Budget{Quick: 24000, Thorough: 400000},
+	Rule:   "cases of `optimise` (without the format-remembering time parser on dynamic input) whose optimised, non-optimised and hoisted compiled expressions are shared by W=1..8 goroutines that start together and evaluate every context 4..24 times from different offsets (own context objects per goroutine); oracle: every result equals the sequential non-optimised one. Non-trivial: non-trivial as in `optimise`, W>=2, >=2 contexts. Built with -race in the thorough tier",
+	Budget: pbt.Budget{Quick: 24000, Thorough: 160000},
 	Gen:    genConcOpt, Check: checkConcOpt,
 	Classify: func(c ConcOptCase) (bool, []string) {
 		nt, l := classifyOpt(c.OptCase)
@@ -1184,7 +1223,7 @@ func TestConcurrentOptimise(t *testing.T) { pbt.Run(t, concOptSpec) }
 
 func genConcFuncs(t *rapid.T) ConcFuncsCase {
 	g := &gctx{t: t, labels: map[string]bool{}}
-	c := ConcFuncsCase{FuncsCase: buildFuncs(g, 5, 0)}
+	c := ConcFuncsCase{FuncsCase: buildFuncs(g, 5, 0, true)}
 	c.W, c.Reps = genWorkers(g)
 	return c
 }
@@ -1202,6 +1241,13 @@ func checkConcFuncs(c ConcFuncsCase) error {
 		want[i] = fc.inline.BuildKey(x.kb(nil))
 	}
 	exprs := append([]compiled{{"the inlined template", fc.inline}}, fc.exprs...)
+	for i, x := range c.Ctxs {
+		for _, e := range exprs {
+			if got := e.kb.BuildKey(x.kb(nil)); got != want[i] {
+				return fmt.Errorf("sequential evaluation already differs (%s)\n funcs file:\n%s\n call:   %s\n inline: %s\n context %d: %s\n got:  %s\n want: %s", e.name, indent(string(c.File)), q(withTable(c.Call)), q(withTable(c.Inline)), i+1, describeCtx(x), q(got), q(want[i]))
+			}
+		}
+	}
 	if err := hammer(exprs, c.Ctxs, make([][]pbt.S, len(exprs)), want, c.W, c.Reps); err != nil {
 		return fmt.Errorf("%v\n funcs file:\n%s\n call:   %s\n inline: %s", err, indent(string(c.File)), q(withTable(c.Call)), q(withTable(c.Inline)))
 	}
@@ -1210,8 +1256,8 @@ func checkConcFuncs(c ConcFuncsCase) error {
 
 var concFuncsSpec = pbt.Spec[ConcFuncsCase]{
 	Property: "C10", Name: "concurrent-funcs",
-	Rule: "cases of `funcs` whose compiled calls (layout/flat file x optimised/not) and inlined templates are shared by W=1..8 goroutines that start together and evaluate every context 5..40 times from different offsets, so that calls of one user function with different matches are in flight at the same time; oracle: every result equals the sequential value of the inlined template. Non-trivial: as in `funcs`, W>=2, >=2 contexts. Built with -race in the thorough tier",
-	Budget: pbt.Budget{Quick: 16000, Thorough: 250000},
+	Rule:   "cases of `funcs` whose compiled calls (layout/flat file x optimised/not) and inlined templates are shared by W=1..8 goroutines that start together and evaluate every context 4..24 times from different offsets, so that calls of one user function with different matches are in flight at the same time; oracle: every result equals the sequential value of the inlined template. Non-trivial: as in `funcs`, W>=2, >=2 contexts. Built with -race in the thorough tier",
+	Budget: pbt.Budget{Quick: 14000, Thorough: 100000},
 	Gen:    genConcFuncs, Check: checkConcFuncs,
 	Classify: func(c ConcFuncsCase) (bool, []string) {
 		nt, l := classifyFuncs(c.FuncsCase)
